@@ -33,7 +33,7 @@ def profile(r, tier, index):
         # delivered file must have been announced (disk vs the sessions' replayed views)
         prof["compare"] = False
         prof["weights"] = dict(W, fetch=5, store=6, deliver=6, noop=3, idle=0.5, wait=0.5)
-        prof["fetch_items"] = ["(BODY.PEEK[])", "(UID FLAGS BODY.PEEK[])", "(FLAGS)"]
+        prof["fetch_items"] = ["(BODY.PEEK[])", "(UID FLAGS BODY.PEEK[])", "(FLAGS)", "(BODY[])", "(RFC822)", "(FLAGS BODY[TEXT])"]
     return prof
 
 
@@ -55,4 +55,44 @@ def post(prog, r, tier, prof):
     return prog
 
 
-generate, execute, simplifications = _common.make(PROP, profile, CONFIG, post)
+_generate, execute, simplifications = _common.make(PROP, profile, CONFIG, post)
+
+
+def generate(seed, tier, index, kf):
+    """85 %: the histories above. 15 %: 'flag race' programs - one session's non-peek FETCH over
+    several messages (suspended between messages) while another session STOREs a disjoint
+    message and/or an MH agent delivers with `unseen`, and then nothing else happens: at
+    quiescence .mh_sequences must show what the IMAP side reports (disk_flags_at_quiescence)."""
+    import random
+
+    r = random.Random(seed ^ 0x13AC)
+    if r.random() >= 0.15:
+        return _generate(seed, tier, index, kf)
+    prog = _generate(seed, tier, index, kf)
+    prog["mode"] = "concurrent"
+    prog["compare"] = False
+    prog["sessions"] = [{"id": "sa", "proto": "imap"}, {"id": "sb", "proto": "imap"}]
+    box = prog["store"]["mailboxes"][0]
+    while len(box["msgs"]) < r.randint(8, 14):
+        tok = 500 + len(box["msgs"])
+        box["msgs"].append({"tok": tok, "key": (box["msgs"][-1]["key"] + 1) if box["msgs"] else 1, "flags": [], "date": 1_690_000_000 + tok, "shape": "plain"})
+    n = len(box["msgs"])
+    name = box["name"]
+    ops = [{"s": "sa", "op": "select", "mbox": name, "examine": False, "when": {"delay": 0.0}}, {"s": "sb", "op": "select", "mbox": name, "examine": False, "when": {"delay": 0.0}}]
+    for _ in range(r.randint(1, 2)):
+        k = r.randint(4, n - 2)
+        first = sorted(r.sample(range(1, k + 1), r.randint(3, k)))
+        other = r.randint(k + 1, n)
+        base = r.choice((0.5, 1.0, 2.0))
+        ops.append({"s": "sa", "op": "fetch", "uid": r.random() < 0.5, "set": {"pos": first}, "items": r.choice(("(BODY[])", "(RFC822)", "(FLAGS BODY[TEXT])", "(FLAGS)")), "when": {"delay": base}})
+        x = r.random()
+        if x < 0.7:
+            ops.append({"s": "sb", "op": "store", "uid": r.random() < 0.5, "set": {"pos": [other]}, "how": r.choice("+-="), "flags": [r.choice(("\\Flagged", "\\Answered", "kw1", "\\Deleted"))], "silent": r.random() < 0.3, "when": {"delay": base + r.choice((0.0, 0.001, 0.005, 0.02, 0.1, 0.3, 0.8))}})
+        if x > 0.5:
+            ops.append({"actor": "agent", "op": "deliver", "mbox": name, "count": 1, "unseen": True, "split": False, "advance": r.random() < 0.5, "when": {"delay": base + r.choice((0.0, 0.002, 0.02, 0.1, 0.4, 1.0))}})
+    prog["ops"] = ops
+    prog["family"] = "flag-race"
+    # a slow reader on a small socket buffer: the FETCH really is suspended between messages
+    prog["knobs"] = dict(prog.get("knobs") or {}, sock_buf=r.choice((128, 256, 1024)))
+    prog["latency"] = dict(prog.get("latency") or {}, net=r.choice(("small", "bimodal", "slow", "wide")))
+    return prog
